@@ -1,2 +1,3 @@
 SPECIFICATION Spec
+CONSTANT Deviations <- AsCode
 CHECK_DEADLOCK FALSE
